@@ -326,7 +326,17 @@ def run(ctx):
                             if e and b not in fn.reachable(e[0]) and b in fn.reachable(e[1]):
                                 guarded = True
                 pushed = any((fn.callee(cb) or "").endswith("Vec::<T, A>::push") and fn.dominates(cb, b) and M_root_eq(fn.trace(fn.term(cb)["args"][0]), coll) for cb in fn.call_blocks())
-                ctx.inst("C01.R5", key, bool(in_loop or guarded or pushed), "len() - const: inside a loop: %s; dominated by an is_empty() exit on the same collection: %s; dominated by a push onto it: %s" % (in_loop, guarded, pushed), fn.loc(b))
+                # (iv) the collection is the argument vector of a built-in arm whose arity guarantees the length (`args.len() - 1` in an AtLeast(1) arm)
+                by_arity = False
+                base_ = n.split("::{closure")[0]
+                if base_ in BA4.members and "int" in t["ops"][1]:
+                    inp_ = (core.hir.get(base_) or {}).get("inputs", [])
+                    ap_ = next((i_ + 1 for i_, t_ in enumerate(inp_) if "Vec<blots_core::values::Value>" in t_), None)
+                    arm_ = BA4.arm(base_, b) if base_ == n else []
+                    mins_ = [ar[a_][1] for a_ in arm_ if a_ in ar]
+                    if ap_ is not None and mins_ and coll and all(r[0] == "param" and r[1] == ap_ for r in coll):
+                        by_arity = min(mins_) >= int(t["ops"][1]["int"])
+                ctx.inst("C01.R5", key, bool(in_loop or guarded or pushed or by_arity), "len() - const: inside a loop: %s; dominated by an is_empty() exit on the same collection: %s; dominated by a push onto it: %s; argument vector of an arm whose minimum arity covers it: %s" % (in_loop, guarded, pushed, by_arity), fn.loc(b))
 
     # ---------------- R6 arithmetic on float->int casts
     ctx.rule("C01.R6", "no checked integer addition/subtraction/multiplication whose operands both come from `f64 as int` casts of user numbers (saturating casts make them overflow)", floor=1)
